@@ -39,6 +39,11 @@ def vary(rng, tree, state):
             st[f] = rng.randint(1, 28)
     if st.get("tag") == "final" and "num" in st:
         st["num"] = 0
+    # keep the varied state a possible date (29 February / day 366 of the start state need not exist in another year)
+    if (st.get("year_y"), st.get("month")) != (state.get("year_y"), state.get("month")) and st.get("dom", 0) > 28:
+        st["dom"] = 28
+    if st.get("year_y") != state.get("year_y") and st.get("doy", 0) > 365:
+        st["doy"] = 365
     return st
 
 
@@ -149,6 +154,16 @@ class Tags:
             cfg_text = rng.choice(valid)
             state = rp.recognise(tree, cfg_text)[0]
         scope = rng.choice(["default", "default", "global", "branch", None])
+        # a branch named exactly like one of the tags (release branch "1.5.0" and tag "1.5.0"): legal, git then calls the
+        # tag "tags/1.5.0" wherever it prints shortest unambiguous names
+        twin = None
+        if tags and rng.random() < 0.25:
+            twin = rng.choice(valid or [t["name"] for t in tags])
+        # a floating tag that somebody moved on the remote (`git tag -f latest && git push -f`): a plain fetch leaves the
+        # local one alone
+        moved = rng.random() < 0.25
+        if moved and not any(t["name"] == "floating" for t in tags):
+            tags.append({"name": "floating", "kind": "junk", "branch": "main", "depth": 2})
         ops = []
         for _ in range(rng.randint(1, 4)):
             if rng.random() < 0.4:
@@ -161,7 +176,7 @@ class Tags:
         return {"pattern": pat["pattern"], "epoch": epoch.isoformat(), "state": state, "cfg_text": cfg_text,
                 "branches": branches, "head": rng.choice(branches), "tags": tags, "scope": scope,
                 "pers": "hg" if (not self.real and rng.random() < 0.2) else "git",
-                "commit": rng.random() < 0.5, "ops": ops}
+                "commit": rng.random() < 0.5, "ops": ops, "twin_branch": twin, "moved_remote_tag": moved}
 
     # ---- world building ---------------------------------------------------------------------------
     def build_fake(self, case, d):
@@ -185,11 +200,15 @@ class Tags:
         for t in case["tags"]:
             chain = tips[t["branch"]]
             repo.tags[t["name"]] = chain[max(0, len(chain) - 1 - t["depth"])]
+        if case.get("twin_branch") and pers == "git" and case["twin_branch"] in repo.tags:
+            repo.branches[case["twin_branch"]] = base
+        if case.get("moved_remote_tag"):
+            repo.moved_remote_tags = ["floating"]
         repo.switch(main if case["head"] == "main" else case["head"])
         return repo
 
     def build_real(self, case, d, clock):
-        rg = realgit.RealGit(d, clock, remote=False)
+        rg = realgit.RealGit(d, clock, remote=bool(case.get("moved_remote_tag")))
         rg.init()
         rg.commit_all("main work 1")
         fork = rg.head()
@@ -205,6 +224,13 @@ class Tags:
         for t in case["tags"]:
             chain = chains[t["branch"]]
             rg.git("tag", t["name"], chain[max(0, len(chain) - 1 - t["depth"])], check=False)
+        if case.get("twin_branch") and case["twin_branch"] in rg.tags():
+            rg.git("branch", case["twin_branch"], chains["main"][0], check=False)
+        if case.get("moved_remote_tag"):
+            # everything is on the remote; there, the floating tag is then moved to another commit
+            rg.git("push", "-q", "origin", "--all")
+            rg.git("push", "-q", "origin", "--tags")
+            rg.git("tag", "-f", "floating", chains["main"][1], cwd=rg.remote_path)
         rg.git("checkout", "-q", case["head"])
         return rg
 
@@ -249,6 +275,10 @@ class Tags:
             ctx.probe("tagkind_" + k)
         if any(t["branch"] != case["head"] for t in tags):
             ctx.probe("tag_on_other_branch")
+        if case.get("twin_branch") in existing:
+            ctx.probe("branch_named_like_a_tag")
+        if case.get("moved_remote_tag"):
+            ctx.probe("tag_moved_on_the_remote")
         ctx.probe("personality_" + case.get("pers", "git"))
         two_digit = gp.has_two_digit_year(tree)
         for op in case["ops"]:
